@@ -2,6 +2,7 @@
 mod conv;
 mod enumr;
 mod props;
+mod refmodel;
 mod runner;
 mod shapes;
 mod svg;
